@@ -1,4 +1,4 @@
-/- Driver ops for C17: probability_bounds. -/
+/- Driver ops for C17: probability_bounds and the places where estimators apply it. -/
 import Driver.Common
 import ZepidVerif.Model.Bounds
 namespace ZVD
@@ -7,6 +7,7 @@ open ZV
 def parseSpec (s : String) : Option (Bounds.BoundSpec Float) :=
   if s == "str" then some .str
   else if s == "int" then some .int
+  else if s == "other" then some .other
   else if s.startsWith "float:" then (parseFloat (s.drop 6).toString).map .float
   else if s.startsWith "seq:" then
     let body := (s.drop 4).toString
@@ -17,10 +18,54 @@ def parseSpec (s : String) : Option (Bounds.BoundSpec Float) :=
 def opBounds (a : Args) : Except String String := do
   let spec ← need a "spec" parseSpec
   let v ← need a "v" (parseList parseFloat)
-  match Bounds.probabilityBounds v spec with
-  | .ok r => pure ("ok v=" ++ showList showFloat r)
+  match Bounds.parseBound spec with
   | .error e => pure ("err " ++ showErr e)
+  | .ok (lo, hi) =>
+    match Bounds.probabilityBounds v spec with
+    | .ok r => pure s!"ok v={showList showFloat r} lo={showFloat lo} hi={showFloat hi} truncated={Bounds.truncCount lo hi v}"
+    | .error e => pure ("err " ++ showErr e)
 
-def opsC17 : OpTable := [("bounds", opBounds)]
+def zip3 {α β γ} : List α → List β → List γ → List (α × β × γ)
+  | a :: as, b :: bs, c :: cs => (a, b, c) :: zip3 as bs cs
+  | _, _, _ => []
+
+/-- `bw kind=… spec=… falsy=0|1 …`: the estimator use sites of the bound, Float carrier -/
+def opBw (a : Args) : Except String String := do
+  let kind ← need a "kind" some
+  let spec ← need a "spec" parseSpec
+  let falsy ← need a "falsy" parseBool
+  match Bounds.estimatorBound falsy spec with
+  | .error e => pure ("err " ++ showErr e)
+  | .ok iv =>
+    match kind with
+    | "iptw" =>
+      let stab ← need a "stab" parseBool
+      let std ← need a "std" some
+      let rows := zip3 (← bools a "a") (← fls a "n") (← fls a "d")
+      let out := rows.map fun (a1, n, d) => Bounds.iptwRow stab std iv a1 n d
+      pure s!"ok d={showList (fun r => showFloat r.1) out} n={showList (fun r => showFloat r.2.1) out} w={showList (fun r => showFloat r.2.2) out}"
+    | "gpair" =>
+      let out := (← fls a "p").map (Bounds.gPair iv)
+      pure s!"ok g1={showList (fun r => showFloat r.1) out} g0={showList (fun r => showFloat r.2) out}"
+    | "clip" =>
+      let out := (← fls a "p").map (Bounds.applyB iv)
+      pure s!"ok p={showList showFloat out}"
+    | "stoch" =>
+      let out := ((← bools a "a").zip (← fls a "p")).map fun (a1, p) => Bounds.stochDen iv a1 p
+      pure s!"ok den={showList showFloat out}"
+    | "cf" =>
+      let out := (← fls a "p").map (Bounds.cfPair iv)
+      pure s!"ok pa1={showList (fun r => showFloat r.1) out} pa0={showList (fun r => showFloat r.2) out}"
+    | "ipmw" =>
+      let out := ((← fls a "n").zip (← fls a "d")).map fun (n, d) => Bounds.ipmwRow iv n d
+      pure s!"ok w={showList showFloat out}"
+    | "ipsw" =>
+      let gen ← need a "gen" parseBool
+      let stab ← need a "stab" parseBool
+      let out := ((← fls a "n").zip (← fls a "d")).map fun (n, d) => Bounds.ipswRow gen stab iv n d
+      pure s!"ok d={showList (fun r => showFloat r.1) out} n={showList (fun r => showFloat r.2.1) out} w={showList (fun r => showFloat r.2.2) out}"
+    | _ => throw ("unknown-kind:" ++ kind)
+
+def opsC17 : OpTable := [("bounds", opBounds), ("bw", opBw)]
 
 end ZVD
